@@ -5,6 +5,7 @@ import (
 	"sort"
 	"strconv"
 	"strings"
+	"unicode/utf8"
 
 	"verif/harness/impl"
 )
@@ -725,6 +726,36 @@ func ChannelF(t Tier, r *Rng, emit Emit) {
 			}
 		}
 		emit(fmt.Sprintf("F %s unpack %s", ss, H(r.Bytes(r.Intn(12)))))
+	}
+	// two writes to one field object through two writers, then Pack: the field holds the second value
+	// (lines are emitted only where both writers apply to the field kind in the implementation)
+	writers := impl.FieldWriters[:len(impl.FieldWriters)-1]
+	for i := 0; i < t.N(600, 12000); i++ {
+		spec := g.Prim(false)
+		if spec.Kids[3].Name == "none" {
+			continue
+		}
+		g.OutOfDomain = false
+		v1, v2 := g.Value(spec, false), g.Value(spec, false)
+		if g.OutOfDomain {
+			continue
+		}
+		w1, w2 := Pick(r, writers), Pick(r, writers)
+		// JSON carries texts as UTF-8: anything else is replaced on the way (outside the JSON domain, DESIGN §2.3)
+		validText := func(v *T) bool {
+			if v.Name != "s" || len(v.Kids) == 0 {
+				return true
+			}
+			b, ok := impl.UnHex(v.Kids[0].Name)
+			return ok && utf8.Valid(b)
+		}
+		if (w1 == "json" && !validText(v1)) || (w2 == "json" && !validText(v2)) {
+			continue
+		}
+		line := fmt.Sprintf("F %s history %s:%s %s:%s", spec.String(), w1, v1.String(), w2, v2.String())
+		if res := impl.Run(line); strings.HasPrefix(res, "ok ") || res == "err" {
+			emit(line)
+		}
 	}
 	// arbitrary (incoherent) primitive specs: misuse must be modelled faithfully too
 	for i := 0; i < t.N(1500, 40000); i++ {
